@@ -57,6 +57,7 @@ type Req struct {
 	BodyB64  string            `json:"body"`
 	Probe    bool              `json:"probe"`
 	TimeoutS int               `json:"timeout_s,omitempty"`
+	bodyFile string            // large bodies are kept on disk until the request is sent
 }
 
 type Resp struct {
@@ -969,6 +970,12 @@ func run(casesPath, outPath string, seed int64, nmut int) int {
 		return 2
 	}
 	rnd := rand.New(rand.NewSource(seed))
+	spill, err := os.MkdirTemp("", "c05bodies")
+	if err != nil {
+		fmt.Fprintln(os.Stderr, err)
+		return 2
+	}
+	defer os.RemoveAll(spill)
 	rmap := map[string]*route{}
 	for _, r := range routes() {
 		rmap[r.Name] = r
@@ -986,7 +993,20 @@ func run(casesPath, outPath string, seed int64, nmut int) int {
 		if path == "" {
 			path = r.Path
 		}
-		reqs = append(reqs, Req{Label: label, Method: r.Method, Path: path, Headers: h, BodyB64: base64.StdEncoding.EncodeToString(body)})
+		rq := Req{Label: label, Method: r.Method, Path: path, Headers: h}
+		if len(body) > 64<<10 {
+			// thousands of multi-megabyte bodies do not fit in memory at once
+			f, err := os.CreateTemp(spill, "body")
+			if err == nil {
+				f.Write(body)
+				f.Close()
+				rq.bodyFile = f.Name()
+			}
+		}
+		if rq.bodyFile == "" {
+			rq.BodyB64 = base64.StdEncoding.EncodeToString(body)
+		}
+		reqs = append(reqs, rq)
 	}
 	for _, c := range cases {
 		r := rmap[c.Route]
@@ -995,6 +1015,11 @@ func run(casesPath, outPath string, seed int64, nmut int) int {
 			continue
 		}
 		label := fmt.Sprintf("%s|%s=%s", c.Route, c.F1, c.D1)
+		if c.F2 != "" && c.D1 == "huge" && c.D2 == "huge" {
+			// two size defects multiply (20000 streams x 1.2 MB labels = 24 GB of JSON): each is covered on its own
+			skipped++
+			continue
+		}
 		if r.JSON != nil {
 			body, ok := mutateJSON(r, c.F1, c.D1, rnd)
 			if !ok {
@@ -1160,6 +1185,11 @@ func runShard(reqs []Req, probe Req, add func(Finding), mu *sync.Mutex, codes ma
 	}
 	for i := range reqs {
 		rq := reqs[i]
+		if rq.bodyFile != "" {
+			if b, err := os.ReadFile(rq.bodyFile); err == nil {
+				rq.BodyB64 = base64.StdEncoding.EncodeToString(b)
+			}
+		}
 		rs, ok := ch.send(rq)
 		routeName := strings.SplitN(rq.Label, "|", 2)[0]
 		if !ok {
